@@ -288,13 +288,17 @@ fn thresholds(quick: bool) -> Vec<Scen> {
 fn fragmented(quick: bool) -> Vec<Scen> {
     let mut v = Vec::new();
     let sizes: Vec<usize> = if quick {
-        vec![MAXP, 2 * MAXP + 9]
+        vec![MAXP, 2 * MAXP + 9, 4 * MAXP + 1]
     } else {
-        vec![MAXP - 1, MAXP, MAXP + 1, 2 * MAXP - 1, 2 * MAXP, 2 * MAXP + 1, 2 * MAXP + 9]
+        vec![MAXP - 1, MAXP, MAXP + 1, 2 * MAXP - 1, 2 * MAXP, 2 * MAXP + 1, 2 * MAXP + 9, 3 * MAXP, 4 * MAXP, 4 * MAXP + 4]
     };
     for (vi, size) in sizes.iter().enumerate() {
         for variant in 0..3 {
             if quick && variant == 1 && vi == 1 {
+                continue;
+            }
+            // requests of five packets (the advertised 64 MiB limit): one variant, few cuts
+            if *size > 3 * MAXP && variant != 0 {
                 continue;
             }
             let (conv, exp, label) = if variant == 2 {
@@ -360,7 +364,10 @@ fn fragmented(quick: bool) -> Vec<Scen> {
             }
             cands.sort();
             cands.dedup();
-            if quick {
+            if *size > 3 * MAXP {
+                let big: Vec<usize> = cands.iter().copied().filter(|p| *p > 3 * MAXP).step_by(3).collect();
+                sc.sets = Some(subsets_upto(&big, if quick { 0 } else { 1 }));
+            } else if quick {
                 // keep the positions around the continuation headers only
                 let big: Vec<usize> = cands.iter().copied().filter(|p| *p > MAXP / 2).collect();
                 sc.sets = Some(subsets_upto(&big, 1));
